@@ -136,6 +136,8 @@ def run(ctx):
                                    findings.sqla_semantic_triggers, profile=clean)
         SC.bool_operand_lane(ctx, ctx.rng("boolops" + style), make_select(style, lambda x: x),
                              findings.sqla_semantic_triggers, profile=clean)
+        SC.in_list_shape_lane(ctx, ctx.rng("inshape" + style), make_select(style, lambda x: x),
+                              findings.sqla_semantic_triggers, profile=clean)
         SC.interval_lane(ctx, ctx.rng("interval" + style), make_select(style, lambda x: x),
                          findings.sqla_semantic_triggers, profile=clean)
         SC.math_of_literal_lane(ctx, ctx.rng("mathlit" + style), make_select(style, lambda x: x),
